@@ -19,7 +19,7 @@ NAMED_MAX = 1 << 16      # interned names available to the history: $n0 .. $n655
 LANGS = {
     'Lf': {'f': ('F', 'ss'), 'g': ('G', 'ss'), 'h': ('H', 'sss'), 'w': ('W', 'ssss')},
     'Lm': {'mvar': ('MVar', 's'), 'madd': ('MAdd', 'cc'), 'mmul': ('MMul', 'cc'), 'msum': ('MSum', 'bc'), 'mlet': ('MLet', 'bcc')},
-    'Lb': {'var': ('Var', 's'), 'app': ('App', 'cc'), 'lam': ('Lam', 'bc'), 'k': ('K', 'ss'), 'u': ('U', 'c'), 'j': ('J', 'ss'), 't3': ('T3', 'sss'), 's3': ('S3', 'sss'), 'm3': ('M3', 'sss'), 'at': ('At', 'sc')},
+    'Lb': {'var': ('Var', 's'), 'app': ('App', 'cc'), 'lam': ('Lam', 'bc'), 'k': ('K', 'ss'), 'u': ('U', 'c'), 'j': ('J', 'ss'), 't3': ('T3', 'sss'), 's3': ('S3', 'sss'), 'm3': ('M3', 'sss'), 'at': ('At', 'sc'), 'ta': ('Ta', 'cs')},
 }
 
 class Template:
